@@ -28,7 +28,9 @@ type bcProblem struct {
 	What string
 }
 
-func (p bcProblem) String() string { return fmt.Sprintf("function #%d offset %04d: %s", p.Fn, p.Off, p.What) }
+func (p bcProblem) String() string {
+	return fmt.Sprintf("function #%d offset %04d: %s", p.Fn, p.Off, p.What)
+}
 
 // stackEffect returns the change of the operand stack height for the
 // fall-through edge and for the jump edge of an instruction.
